@@ -30,7 +30,7 @@ FORMS = ['aggregate-rows', 'aggregate-value', 'aggregate-values', 'aggregate-len
          'aggregate-multi-none', 'rowreduce', 'rowgroupmap', 'fold', 'groupselectfirst', 'groupselectlast', 'groupselectmin', 'groupselectmax',
          'mergeduplicates', 'merge', 'groupcountdistinctvalues', 'rowgroupby', 'rowgroupby-callable', 'valuecounts', 'valuecounter']
 REQUIRED = (['form:' + f for f in FORMS] + ['key-none-group', 'equal-but-different-type-keys-in-one-group', 'single-row-group-first', 'single-row-group-last',
-            'compound-key', 'chunked', 'presorted', 'header-only', 'rows-handed-to-recorders', 'min/max-tie', 'merge:header-only-table-not-last', 'mergeduplicates:non-default-missing', 'mergeduplicates:short-rows', 'key-by-index', 'merge:reverse', 'second-pass-compared', 'rows-without-a-key-cell', 'failing-first-pass'])
+            'compound-key', 'chunked', 'presorted', 'header-only', 'rows-handed-to-recorders', 'min/max-tie', 'merge:header-only-table-not-last', 'mergeduplicates:non-default-missing', 'mergeduplicates:short-rows', 'key-by-index', 'merge:reverse', 'second-pass-compared', 'rows-without-a-key-cell', 'failing-first-pass', 'input-is-a-petl-view'])
 FAILFIRST_FORMS = ('aggregate-len', 'aggregate-values', 'groupselectfirst', 'groupselectlast', 'groupselectmin', 'groupselectmax')
 KPOOL = [None, 1, 1.0, True, 2, 'a', 'b', b'a', (1, 2), gen.D(2020, 1, 1)]
 LISTKEY = [1, 2]      # a list-valued key cell is equivalent to the tuple (1, 2) under the ordering (C04): one group
@@ -65,7 +65,10 @@ def cases(ctx):
         c = {'form': f, 'table': t, 'key': key, 'buffersize': rng.choice([None, None, 1, 2, 3]), 'presorted': rng.random() < 0.2}
         if f == 'merge' and rng.random() < 0.3:
             c['reverse'] = True
-        if f in FAILFIRST_FORMS and n >= 2 and rng.random() < 0.15:
+        if not c['presorted'] and rng.random() < 0.12:
+            # the input is itself a petl view: a sort on the same key (descending, ascending, through chunk files), or a pass-through
+            c['wrap'] = rng.choice(['sort-same-key-reverse', 'sort-same-key-reverse', 'sort-same-key', 'sort-same-key-reverse-chunked', 'sort-other', 'cat'])
+        if f in FAILFIRST_FORMS and n >= 2 and rng.random() < 0.15 and 'wrap' not in c:
             # the first pass over the view hits a source failure at this data row; the judged pass comes after it
             c['failfirst'] = rng.randint(1, n)
         if f in ('aggregate-len', 'groupselectfirst', 'groupselectlast') and rng.random() < 0.25:
@@ -104,6 +107,14 @@ def judge(case, ctx):
     table = copy.deepcopy(case['table'])
     hdr = table[0]
     rows = [tuple(r) for r in table[1:]]
+    wrapfn = None
+    if case.get('wrap') and form not in ('merge', 'rowgroupby', 'rowgroupby-callable', 'valuecounts', 'valuecounter'):
+        # the input is a petl view; "input order" is then the order in which that view delivers its rows
+        wkey = key if not isinstance(key, list) else tuple(key)
+        wrapfn = {'sort-same-key-reverse': lambda t: petl.sort(t, wkey, reverse=True), 'sort-same-key': lambda t: petl.sort(t, wkey),
+                  'sort-same-key-reverse-chunked': lambda t: petl.sort(t, wkey, reverse=True, buffersize=2),
+                  'sort-other': lambda t: petl.sort(t, 'id', reverse=True), 'cat': lambda t: petl.cat(t)}[case['wrap']]
+        rows = [tuple(r) for r in util.rows_of(wrapfn(copy.deepcopy(table)))[1:]]
     ctx.op('form:' + form)
     kidx = gen.resolve_key(hdr, key)
     compound = len(kidx) > 1
@@ -143,6 +154,11 @@ def judge(case, ctx):
         src = [hdr] + sorted(table[1:], key=lambda r: util.model_key(tuple((r[i] if i < len(r) else None) for i in kidx)))
     vi, idi = hdr.index('v'), hdr.index('id')
     out = []
+    if wrapfn is not None:
+        ctx.seen('input-is-a-petl-view')
+        src = wrapfn(copy.deepcopy(table))
+    def fresh_src():
+        return wrapfn(copy.deepcopy(table)) if wrapfn is not None else copy.deepcopy(src)
     ff = case.get('failfirst')
     if ff is not None:
         src = probes.FailingSource(src, fail_at=ff, only_pass=1)
@@ -228,7 +244,7 @@ def judge(case, ctx):
         got = util.attempt_rows(lambda: petl.aggregate(src, keyarg, list, 'id', **kw))
         exp = [khdr + ('value',)] + [keycells(g) + ([r[idi] for r in g[1]],) for g in groups]
         compare(got, exp)
-        got = util.attempt_rows(lambda: petl.aggregate(copy.deepcopy(src), keyarg, sum, 'v', field='total', **kw))
+        got = util.attempt_rows(lambda: petl.aggregate(fresh_src(), keyarg, sum, 'v', field='total', **kw))
         exp = [khdr + ('total',)] + [keycells(g) + (sum(r[vi] for r in g[1]),) for g in groups]
         if compare(got, exp) and sum(r[-1] for r in got[1:]) != sum(r[vi] for r in rows):
             out.append({'kind': 'group-sums-do-not-add-up'})
@@ -264,9 +280,9 @@ def judge(case, ctx):
     elif form == 'aggregate-none':
         got = util.attempt_rows(lambda: petl.aggregate(src, None, len))
         compare(got, [('value',), (len(rows),)])
-        got = util.attempt_rows(lambda: petl.aggregate(copy.deepcopy(src), None, sum, 'v'))
+        got = util.attempt_rows(lambda: petl.aggregate(fresh_src(), None, sum, 'v'))
         compare(got, [('value',), (sum(r[vi] for r in rows),)])
-        got = util.attempt_rows(lambda: petl.aggregate(copy.deepcopy(src), None, list, 'id'))
+        got = util.attempt_rows(lambda: petl.aggregate(fresh_src(), None, list, 'id'))
         order = [r[idi] for r in (src[1:])]
         compare(got, [('value',), (order,)])
     elif form == 'aggregate-multi-none':
